@@ -132,6 +132,72 @@ for n_ctx, n_blk in ((1, 0), (0, 1), (2, 1)):
     con.cases.append(c)
 
 
+# an EXTERN entity has no architecture: nothing reports it to the instantiation handler, so apply() itself must register its
+# info -- otherwise __exit__ never discards the template (a copy of the port dictionary taken in THIS compilation) and every
+# later compilation in the process sees the interface the extern entity had now (a port added later: KeyError in the IR)
+def extern_shape():
+    def make(env):
+        info = SObj(CTX.EntityInfo, instantiated_template=None, extern=True, instantiated=None, f_copy=Opaque("copy of the info"))
+        return SCls(CTX.Entity, _cohdl_info=info)
+
+    return Built([], make, lambda a: "None", lambda a: None)
+
+
+class _InfoCopy:
+    pass
+
+
+def extern_spec(sx, self, inp):
+    real_self, real_cls = sx.real_args[0], sx.real_args[1]
+    info = real_cls.params["_cohdl_info"]
+
+    def holds(res):
+        infos = real_self.fields["_entity_infos"]
+        return (isinstance(res, SObj) and res.kind is OUT.EntityTemplate and info.fields["instantiated_template"] is res
+                and sum(1 for i in infos if i is info) == 1)
+
+    return C.Pred(holds, "the template is cached on the info AND the info is registered for the discard at the end of the compilation")
+
+
+from cohdl._compiler.frontend import _prepare_ast_out as OUT  # noqa: E402
+
+c = Case("extern-entity-type", [Built([], lambda env: SObj(PA.ConvertPythonInstance, _entity_infos=[]), lambda a: "None", lambda a: None), extern_shape()], extern_spec)
+c.native = False
+c.models = [(CTX.EntityInfo.__dict__["copy"], lambda it, self: self.fields["f_copy"])]
+
+
+def _extern_setup(it, ctx, args, env):
+    pa_setup(it, ctx, args, env)
+    it.class_call_models[OUT.EntityTemplate] = lambda it_, a, k: SObj(OUT.EntityTemplate, f_info=a[0])
+
+
+c.setup = _extern_setup
+c.on_exit = pa_on_exit
+c.custom_replay = "contracts.c11_frames.replay_extern_template"
+con.cases.append(c)
+
+_EXTERN_DESIGN = '''
+from cohdl import Entity, Port, Bit, std
+class Ext(Entity, extern=True):
+    a = Port.input(Bit)
+    y = Port.output(Bit)
+class Top1(Entity):
+    x = Port.input(Bit)
+    o = Port.output(Bit)
+    def architecture(self):
+        Ext(a=self.x, y=self.o)
+std.VhdlCompiler.to_string(Top1)
+print("TEMPLATE-KEPT" if Ext._cohdl_info.instantiated_template is not None else "TEMPLATE-DISCARDED")
+'''
+
+
+def replay_extern_template(payload):
+    from contracts.c06_extra import _run_design
+
+    rc, out = _run_design(_EXTERN_DESIGN)
+    return {"reproduced": rc == 0 and "TEMPLATE-KEPT" in out, "detail": "template of an extern entity after the compilation that instantiated it: " + out[-40:]}
+
+
 # ---- 3. Entity.__init__ ------------------------------------------------------------------------------------------
 def ent_shape():
     def make(env):
